@@ -38,6 +38,7 @@ def run(ctx):
             infeasible += 1
             continue
         cases.append(c)
+    cases += hc.c15_scenarios(rng, len(cases))
     n_scripted = len(cases)
     for _ in range(300 if T else 100):
         cases.append(hc.composite_case(rng, len(cases), PROP))
